@@ -118,6 +118,15 @@ def run(tier: str) -> int:
     for name, text in corpus.RICH + corpus.FINDING_DOCS + [("q:" + n, t) for n, t in typo.QUOTE_DOCS] + [("e:" + n, t) for n, t in c09.DOT_DOCS] + hdocs + tdocs:
         for o in cube:
             jobs.append(("R", name, text, o))
+    # blocks that interrupt a paragraph (no blank line between the two), at the top level and at the start of a quote
+    sn = dict(c01.SNIPPETS)
+    for na in c01.PARA_LIKE:
+        for nb in c01.INTERRUPTERS:
+            for o in cube:
+                jobs.append(("R", f"adj:{na}/{nb}", sn[na] + "\n" + sn[nb] + "\n", o))
+    for nb in c01.INTERRUPTERS:
+        for o in cube:
+            jobs.append(("R", f"adjq:{nb}", c01.wrap_in("> ", "> ", sn[nb]) + "\n", o))
     # family C (C01's): every block snippet inside every container, first in the container and after a leading paragraph
     for c in c01.CONTAINERS_C:
         for lead in ("", "lead text"):
@@ -252,15 +261,17 @@ def d44_shape(tree) -> bool:
     return walk(tree)
 
 
-def d44_first_shape(tree) -> bool:
-    """some list item starts with a loose list"""
+def d44_first_shape(tree, all_loose: bool = False, any_enclosing: bool = False) -> bool:
+    """some item of a LOOSE list starts with a loose list (all_loose: list-spacing=loose renders every list loose; any_enclosing: C01's use, where the separator in front of the enclosing marker is
+    neutralised and the trees compared, whatever the enclosing list is) (the items of a tight list write no separator and leave the pending one alone: no
+    defect there, and a change that makes them consume it is reported)"""
     def walk(n):
         if not isinstance(n, tuple):
             return False
         if n[0] == "list":
             for li in n[4]:
                 kids = li[1] if li and li[0] == "li" else []
-                if kids and kids[0][0] == "list" and not kids[0][3]:
+                if (all_loose or any_enclosing or not n[3]) and kids and kids[0][0] == "list" and (all_loose or not kids[0][3]):
                     return True
                 if any(walk(k) for k in kids):
                     return True
@@ -314,7 +325,8 @@ def finding_for(m) -> str | None:
     # D44, second face: a loose list that OPENS an item writes its separator before the marker of that item (a blank line in front of the
     # enclosing item; inside a quote '>' first and '> ' + '>' after the next pass).  Attributed only if the source has that shape and the two
     # passes differ by nothing but blank / prefix-only lines
-    if "D44" in KF_OPEN and d44_first_shape(project.parse_marko(m["src"])):
+    loose_mode = m["opts"].get("list_spacing") == "loose" or "loose" in m["opts"].get("cli", [])
+    if "D44" in KF_OPEN and d44_first_shape(project.parse_marko(m["src"]), loose_mode):
         def solid(text):
             return [l.rstrip() for l in text.split("\n") if l.strip(" >") != ""]
         if solid(m["pass1"]) == solid(m["pass2"]):
